@@ -35,13 +35,13 @@ CHECKS = {
     ),
     "C08": dict(
         ref="DESIGN.md 5.1",
-        text="Seeded search over thread schedules and faults: 1-4 real caller threads (one baton, sys.settrace pre-emption points at valida source lines / opcodes) issue filter/get/part_filter/test/validate on one shared world; abort and allocation-failure faults; during the run digests of all pre-existing objects and an attribute-write tracer; afterwards every completed operation's outcome must equal the same operation on freshly built objects run alone. Sampling of schedules (random, PCT, stratified, after-write), not enumeration.",
-        note="Trusts: CPython's trace events as the set of pre-emption points (finer interleavings inside one bytecode do not exist under the GIL); fresh-object reference uses the same valida code, so only history/sharing/schedule dependence is detected. Aborts only in line-granularity runs (CPython 3.12.1 crashes when a trace function raises with opcode tracing on).",
+        text="Seeded search over thread schedules and faults: 1-4 real caller threads (one baton, sys.settrace pre-emption points at valida source lines / opcodes) issue filter/get/part_filter/test/validate on one shared world (in runs without pre-emption callers also edit their own documents between operations); abort and allocation-failure faults; during the run digests of all pre-existing objects and an attribute-write tracer; afterwards every completed operation's outcome must equal the same operation on freshly built objects run alone. Sampling of schedules (random, PCT, stratified, after-write incl. stores into process-wide state, targeted, ping-pong), not enumeration.",
+        note="Trusts: CPython's trace events as the set of pre-emption points (finer interleavings inside one bytecode do not exist under the GIL); fresh-object reference uses the same valida code, so only history/sharing/schedule dependence is detected. Bytecode-level points come from sys.monitoring INSTRUCTION events (the legacy opcode tracing of sys.settrace crashes CPython 3.12.1 when the trace function raises). valida's module-level state is reset before every run and put back to import time for every reference computation.",
         technique="deterministic simulation: baton-passing real threads pre-empted at sys.settrace line/opcode events under a seeded scheduler, fault injection (abort, MemoryError at the deepcopy seam), digest + write-tracer invariants, fresh-object differential history oracle",
     ),
     "C16": dict(
         ref="DESIGN.md 5.3",
-        text="Seeded search over histories: callers interleaved at operation boundaries parse entries of a pool of shared, mutually aliasing spec structures through every entry point, repeatedly; after every parse every spec's type-exact digest must be unchanged, the k-th parse must equal (==) and behave like the first, and both must equal parsing a fresh deep copy.",
+        text="Seeded search over histories: callers interleaved at operation boundaries parse entries of a pool of shared, mutually aliasing spec structures through every entry point (incl. Schema.from_yaml / from_yaml_file on YAML text with anchors), repeatedly; after every parse every spec's type-exact digest must be unchanged, the k-th parse must equal (==) and behave like the first, and both must equal parsing a fresh deep copy.",
         note="Trusts: the harness' type-exact snapshot; behaviour compared on probe documents only. Operation-boundary histories only.",
         technique="deterministic simulation: seeded operation-boundary interleaving of parse operations over shared aliasing spec structures; digest invariants + first-vs-kth-vs-fresh differential oracle",
     ),
